@@ -156,7 +156,7 @@ def payloads_for(kind, typ, mt, served):
 
 LITS = {
     'html': ['', '', '<p>x', '\n', '<p>a</p>\n<p>b</p>\n', ' text ', '<!--c-->', '<span>i</span> ', '<br>', '<!doctype html>\n<title>t</title>\n'],
-    'svg': ['', '', '<g/>', '<rect x="1"/>', '<g><circle r="2"/></g>', '\n', '\n  '],
+    'svg': ['', '', '<g/>', '<rect x="1"/>', '<g><circle r="2"/></g>', '\n', '\n  ', '<text>a{b:c}</text>', '<title>t</title>'],
     'css': ['', '', 'b{color:red}', '@media print{c{d:e}}', '/*c*/', '\n', 'e{f:g}\n'],
 }
 REAL_FOR_LIT = {'text/css': 'css', 'application/javascript': 'js', 'text/javascript': 'js', 'image/svg+xml': 'svg',
@@ -166,6 +166,14 @@ REAL_FOR_PAT = {4: 'js', 2: 'xml', 6: 'json'}
 # registrations beyond the design model's menu (literal custom types, catch-all pattern)
 EXTRA_REGS = [('text/template', 0), ('module', 0), ('application/ld+json', 0), ('text/plain', 0), ('text/javascript', 0),
               ('application/mathml+xml', 0), ('text/x-scss', 0), ('', 3), ('', 5), ('', 6), ('', 2), ('', 4), ('', 1)]
+
+
+def vary(rnd, payload):
+    """seeded variation of numbers and colour names (keeps every payload in its language and free of the excluded constructs)"""
+    if payload in JS_BAD or rnd.random() < 0.4:
+        return payload
+    payload = re.sub(r'(?<![0-9a-zA-Z#.%x])1(?![0-9.%])', lambda m: str(rnd.randint(1, 9)), payload)
+    return re.sub(r'\bred\b', lambda m: rnd.choice(['red', 'blue', 'green', 'navy', 'teal']), payload)
 
 
 def expected_type(slot):
@@ -244,7 +252,7 @@ def make_case(ctx, hostkind, regcodes, shapes, menu, extra_regs=0, opts=False):
         if hasfail:
             if kind in ('dataUriAttr', 'cssDataUri'):
                 cands = [c for c in cands if '\n' not in c and '\r' not in c]
-        payload = rnd.choice(cands)
+        payload = vary(rnd, rnd.choice(cands))
         enc = rnd.choice(['pct', 'b64'])
         quote = rnd.choice(['dq', 'sq'])
         if kind == 'cssDataUri':
